@@ -28,10 +28,11 @@ fi
 cp -f "$repo/go.sum" "$hdir/go.sum"
 
 race=""
-bin="$PWD/bin/vcheck$tag"
+# one binary per check id: concurrent invocations of different checks never write the same file
+bin="$PWD/bin/vcheck$tag.$id"
 if [ "$id" = "C14" ]; then
   race="-race"
-  bin="$PWD/bin/vcheck-race$tag"
+  bin="$PWD/bin/vcheck-race$tag.$id"
 fi
 # Always rebuild: the replace directive points at the repository, so the library is recompiled
 # from its current working tree (the build cache is keyed on file contents).
